@@ -5,16 +5,108 @@ normalisation is an affine bijection onto [0,1] on bounded normalisable componen
 elsewhere; gradient (un)normalisation is the matching linear scaling; membership and projection
 agree with the bounds.
 -/
-import GemseoVerif.Lemmas.C02
+import GemseoVerif.Lemmas.C02Ops
 
 namespace GV.C02
 
-/-! ### Well-formedness (what every public edit maintains) -/
+/-! ### Well-formedness is maintained by every public edit, along every history
 
-def Var.WF (v : Var) : Prop :=
-  v.lb.length = v.ub.length ∧ 0 < v.lb.length ∧ (∀ x, v.value = some x → x.length = v.lb.length)
+`DS.WF` (defined in `Lemmas/C02Ops.lean`): distinct names; for every variable, lower and upper
+bounds of the same non-zero length and a current value (if any) of that length. -/
 
-def DS.WF (d : DS) : Prop := d.names.Nodup ∧ ∀ v ∈ d.vars, v.WF
+theorem wf_empty : DS.empty.WF := by
+  refine ⟨by simp [DS.empty, DS.names], ?_⟩
+  intro v hv; simp [DS.empty] at hv
+
+/-- **Every public edit preserves well-formedness** (a rejected edit leaves the space unchanged). -/
+theorem wf_apply (tol : Rat) (d : DS) (op : Op) (hwf : d.WF) : (d.apply tol op).WF := by
+  cases op with
+  | add v =>
+    simp only [DS.apply]
+    cases h : d.addVariable tol v with
+    | none => exact hwf
+    | some d' => exact wf_addVariable d d' tol v hwf h
+  | remove n =>
+    simp only [DS.apply]
+    cases h : d.removeVariable n with
+    | none => exact hwf
+    | some d' => exact wf_removeVariable d d' n hwf h
+  | filter keep =>
+    simp only [DS.apply]
+    cases h : d.filter keep with
+    | none => exact hwf
+    | some d' => exact wf_filter d d' keep hwf h
+  | filterDim n dims =>
+    simp only [DS.apply]
+    cases h : d.filterDimensions n dims with
+    | none => exact hwf
+    | some d' => exact wf_filterDimensions d d' n dims hwf h
+  | rename o n =>
+    simp only [DS.apply]
+    cases h : d.renameVariable o n with
+    | none => exact hwf
+    | some d' => exact wf_renameVariable d d' o n hwf h
+  | extend vs =>
+    simp only [DS.apply]
+    cases h : d.extend tol vs with
+    | none => exact hwf
+    | some d' => exact wf_extend tol vs d d' hwf h
+  | setLb n b =>
+    simp only [DS.apply]
+    cases h : d.setLowerBound n b with
+    | none => exact hwf
+    | some d' => exact wf_setLowerBound d d' n b hwf h
+  | setUb n b =>
+    simp only [DS.apply]
+    cases h : d.setUpperBound n b with
+    | none => exact hwf
+    | some d' => exact wf_setUpperBound d d' n b hwf h
+  | setArr x =>
+    simp only [DS.apply]
+    cases h : d.setCurrentArray tol x with
+    | none => exact hwf
+    | some d' => exact wf_setCurrentArray d d' tol x hwf h
+  | setDict m =>
+    simp only [DS.apply]
+    cases h : d.setCurrentDict tol m with
+    | none => exact hwf
+    | some d' => exact wf_setCurrentDict d d' tol m hwf h
+  | setVar n x =>
+    simp only [DS.apply]
+    cases hf : d.find? n with
+    | none => exact hwf
+    | some v0 =>
+      simp only
+      split
+      · rename_i hlen
+        cases h : d.setCurrentVariable n x with
+        | none => exact hwf
+        | some d' =>
+          apply wf_setCurrentVariable d d' n x hwf _ h
+          intro v hv hvn
+          obtain ⟨hv0, hn0⟩ := find?_mem d n v0 hf
+          have hvv : v = v0 := by
+            apply (List.inj_on_of_nodup_map hwf.1) hv hv0
+            rw [hvn, hn0]
+          subst hvv
+          simpa using hlen
+      · exact hwf
+  | initMissing => exact wf_initMissing d hwf
+  | intNorm b => exact wf_setIntNorm d b hwf
+
+/-- **After any finite sequence of edits the design space is well formed** — hence all the view
+    theorems below (`views_follow_variable_order`, `index_ranges_are_prefix_sums`,
+    `array_dict_array`, …) apply to every reachable design space. -/
+theorem wf_reachable (tol : Rat) (ops : List Op) : (DS.empty.run tol ops).WF := by
+  have gen : ∀ (ops : List Op) (d : DS), d.WF → (d.run tol ops).WF := by
+    intro ops
+    induction ops with
+    | nil => intro d h; exact h
+    | cons op ops ih =>
+      intro d h
+      simp only [DS.run, List.foldl_cons]
+      exact ih _ (wf_apply tol d op h)
+  exact gen ops DS.empty wf_empty
 
 /-! ### One variable order for every view -/
 
@@ -527,6 +619,9 @@ example : exDS.WF := by
   · exact ⟨rfl, by decide, by intro x hx; cases hx⟩
 
 example : exDS.ranges = [("x", 0, 2), ("yy", 2, 3)] := by decide +kernel
+example : (DS.empty.run 0 [.add ⟨"x", false, [some 0, some 1], [some 2, some 5], some [1, 2]⟩,
+    .add ⟨"yy", true, [none], [some 3], none⟩, .rename "x" "z", .filterDim "z" [1], .initMissing]).names
+    = ["z", "yy"] := by decide +kernel
 example : exDS.normalizeVect true [1, 2, 3] = [1/2, 1/4, 3] := by decide +kernel
 example : (exDS.renameVariable "x" "z").map (·.names) = some ["z", "yy"] := by decide +kernel
 
